@@ -15,9 +15,9 @@
    producers (label LOffer), [c_ncons] consumer goroutines (counter abstraction: they are symmetric), the
    flush goroutines of the batcher (one [work] each), the batcher's timer goroutine, the Shutdown caller.
    Abstractions (see NOTES.md): queue capacity is not modelled (an Offer that is refused is simply no label);
-   request sizes are not part of the LTS: the batcher's decision "flush now / keep" is the nondeterministic
-   flag of [LAbsorb] (so the theorems hold for every batching policy); max_size splitting is not modelled
-   (one consumed request yields at most one flush); back-off durations are not modelled: the back-off timer
+   request sizes are not part of the LTS: into how many chunks a consumed request is split (max_size) and whether
+   the last chunk is kept as the current batch are the nondeterministic parameters of [LAbsorb] (so the theorems
+   hold for every batching policy and every max_size); back-off durations are not modelled: the back-off timer
    may fire at any time ([LRetryTimer]), also after stop (the Go select is random when both are ready). *)
 From Verif Require Import Common.Base.
 
@@ -27,9 +27,11 @@ Inductive outcome := OOk | OTransient | OPermanent.          (* what the export 
 Inductive result := RSuccess | RFail | RShutdown.            (* what the sender chain returns to Done *)
 Inductive send_st := SReady | SInCall | SBackoff | SDone (r : result).
 
-(* one unit of work travelling through obsReport -> retry -> timeout -> export function:
-   [w_cons] = executed by a consumer goroutine itself (disabled batcher) / by a flush goroutine *)
-Record work := mkWork { w_ids : list id; w_st : send_st; w_cons : bool }.
+(* who executes the sender chain obsReport -> retry -> timeout -> export function for a unit of work:
+   a consumer goroutine itself (disabled batcher), a flush goroutine of the batcher, or — exporter without
+   queue and batcher — the goroutine that called Send *)
+Inductive owner := OCons | OFly | OCaller.
+Record work := mkWork { w_ids : list id; w_st : send_st; w_own : owner }.
 
 Inductive timer_st := TNone | TRun | TFlush (b : list id) | TExit.
 
@@ -38,12 +40,17 @@ Inductive pc_t := PNot | PCalled | PStopClosed | PQStopped | PJoined | PFlushWai
                 | PFlushed | PFlushJoined | PInner | PReturned.
 
 Record cfg := mkCfg {
+  c_queue : bool;     (* the exporter has a queue sender (sending queue and/or batcher); false: Send runs the
+                         sender chain on the caller's goroutine and BaseExporter.Shutdown skips the queue *)
   c_persist : bool;   (* persistent queue (storage extension) / memory queue *)
   c_batch : bool;     (* defaultBatcher / disabledBatcher *)
   c_timer : bool;     (* flush_timeout > 0: the batcher runs a timer goroutine *)
   c_retry : bool;     (* retry_on_failure enabled *)
   c_ncons : nat;      (* consumer goroutines *)
-  c_nwork : nat }.    (* batcher worker pool *)
+  c_nwork : nat;      (* batcher worker pool *)
+  c_maxparts : nat }. (* bound on the number of chunks one request is cut into (its size / max_size, rounded up) *)
+
+Definition ncons_eff (c : cfg) : nat := if c_queue c then c_ncons c else 0.
 
 Record state := mkState {
   queue : list id;
@@ -54,7 +61,7 @@ Record state := mkState {
   idle : nat;
   exited : nat;
   holding : list id;
-  cflush : list (list id);
+  cflush : list (list (list id));
   current : list id;
   workers : nat;
   works : list work;
@@ -72,62 +79,74 @@ Record state := mkState {
   failures : nat;
   postb : nat;
   failedids : list id;
-  shuterr : bool }.
+  shuterr : bool;
+  partlog : list (id * result);
+  nparts : list id }.
 
 Definition set_queue (v : list id) (s : state) : state :=
-  mkState v (qstop s) (store s) (refs s) (closed s) (idle s) (exited s) (holding s) (cflush s) (current s) (workers s) (works s) (timer s) (bclosed s) (rstop s) (pc s) (accepted s) (accpre s) (late s) (taken s) (begun s) (ended s) (finished s) (failures s) (postb s) (failedids s) (shuterr s).
+  mkState v (qstop s) (store s) (refs s) (closed s) (idle s) (exited s) (holding s) (cflush s) (current s) (workers s) (works s) (timer s) (bclosed s) (rstop s) (pc s) (accepted s) (accpre s) (late s) (taken s) (begun s) (ended s) (finished s) (failures s) (postb s) (failedids s) (shuterr s) (partlog s) (nparts s).
 Definition set_qstop (v : bool) (s : state) : state :=
-  mkState (queue s) v (store s) (refs s) (closed s) (idle s) (exited s) (holding s) (cflush s) (current s) (workers s) (works s) (timer s) (bclosed s) (rstop s) (pc s) (accepted s) (accpre s) (late s) (taken s) (begun s) (ended s) (finished s) (failures s) (postb s) (failedids s) (shuterr s).
+  mkState (queue s) v (store s) (refs s) (closed s) (idle s) (exited s) (holding s) (cflush s) (current s) (workers s) (works s) (timer s) (bclosed s) (rstop s) (pc s) (accepted s) (accpre s) (late s) (taken s) (begun s) (ended s) (finished s) (failures s) (postb s) (failedids s) (shuterr s) (partlog s) (nparts s).
 Definition set_store (v : list id) (s : state) : state :=
-  mkState (queue s) (qstop s) v (refs s) (closed s) (idle s) (exited s) (holding s) (cflush s) (current s) (workers s) (works s) (timer s) (bclosed s) (rstop s) (pc s) (accepted s) (accpre s) (late s) (taken s) (begun s) (ended s) (finished s) (failures s) (postb s) (failedids s) (shuterr s).
+  mkState (queue s) (qstop s) v (refs s) (closed s) (idle s) (exited s) (holding s) (cflush s) (current s) (workers s) (works s) (timer s) (bclosed s) (rstop s) (pc s) (accepted s) (accpre s) (late s) (taken s) (begun s) (ended s) (finished s) (failures s) (postb s) (failedids s) (shuterr s) (partlog s) (nparts s).
 Definition set_refs (v : nat) (s : state) : state :=
-  mkState (queue s) (qstop s) (store s) v (closed s) (idle s) (exited s) (holding s) (cflush s) (current s) (workers s) (works s) (timer s) (bclosed s) (rstop s) (pc s) (accepted s) (accpre s) (late s) (taken s) (begun s) (ended s) (finished s) (failures s) (postb s) (failedids s) (shuterr s).
+  mkState (queue s) (qstop s) (store s) v (closed s) (idle s) (exited s) (holding s) (cflush s) (current s) (workers s) (works s) (timer s) (bclosed s) (rstop s) (pc s) (accepted s) (accpre s) (late s) (taken s) (begun s) (ended s) (finished s) (failures s) (postb s) (failedids s) (shuterr s) (partlog s) (nparts s).
 Definition set_closed (v : bool) (s : state) : state :=
-  mkState (queue s) (qstop s) (store s) (refs s) v (idle s) (exited s) (holding s) (cflush s) (current s) (workers s) (works s) (timer s) (bclosed s) (rstop s) (pc s) (accepted s) (accpre s) (late s) (taken s) (begun s) (ended s) (finished s) (failures s) (postb s) (failedids s) (shuterr s).
+  mkState (queue s) (qstop s) (store s) (refs s) v (idle s) (exited s) (holding s) (cflush s) (current s) (workers s) (works s) (timer s) (bclosed s) (rstop s) (pc s) (accepted s) (accpre s) (late s) (taken s) (begun s) (ended s) (finished s) (failures s) (postb s) (failedids s) (shuterr s) (partlog s) (nparts s).
 Definition set_idle (v : nat) (s : state) : state :=
-  mkState (queue s) (qstop s) (store s) (refs s) (closed s) v (exited s) (holding s) (cflush s) (current s) (workers s) (works s) (timer s) (bclosed s) (rstop s) (pc s) (accepted s) (accpre s) (late s) (taken s) (begun s) (ended s) (finished s) (failures s) (postb s) (failedids s) (shuterr s).
+  mkState (queue s) (qstop s) (store s) (refs s) (closed s) v (exited s) (holding s) (cflush s) (current s) (workers s) (works s) (timer s) (bclosed s) (rstop s) (pc s) (accepted s) (accpre s) (late s) (taken s) (begun s) (ended s) (finished s) (failures s) (postb s) (failedids s) (shuterr s) (partlog s) (nparts s).
 Definition set_exited (v : nat) (s : state) : state :=
-  mkState (queue s) (qstop s) (store s) (refs s) (closed s) (idle s) v (holding s) (cflush s) (current s) (workers s) (works s) (timer s) (bclosed s) (rstop s) (pc s) (accepted s) (accpre s) (late s) (taken s) (begun s) (ended s) (finished s) (failures s) (postb s) (failedids s) (shuterr s).
+  mkState (queue s) (qstop s) (store s) (refs s) (closed s) (idle s) v (holding s) (cflush s) (current s) (workers s) (works s) (timer s) (bclosed s) (rstop s) (pc s) (accepted s) (accpre s) (late s) (taken s) (begun s) (ended s) (finished s) (failures s) (postb s) (failedids s) (shuterr s) (partlog s) (nparts s).
 Definition set_holding (v : list id) (s : state) : state :=
-  mkState (queue s) (qstop s) (store s) (refs s) (closed s) (idle s) (exited s) v (cflush s) (current s) (workers s) (works s) (timer s) (bclosed s) (rstop s) (pc s) (accepted s) (accpre s) (late s) (taken s) (begun s) (ended s) (finished s) (failures s) (postb s) (failedids s) (shuterr s).
-Definition set_cflush (v : list (list id)) (s : state) : state :=
-  mkState (queue s) (qstop s) (store s) (refs s) (closed s) (idle s) (exited s) (holding s) v (current s) (workers s) (works s) (timer s) (bclosed s) (rstop s) (pc s) (accepted s) (accpre s) (late s) (taken s) (begun s) (ended s) (finished s) (failures s) (postb s) (failedids s) (shuterr s).
+  mkState (queue s) (qstop s) (store s) (refs s) (closed s) (idle s) (exited s) v (cflush s) (current s) (workers s) (works s) (timer s) (bclosed s) (rstop s) (pc s) (accepted s) (accpre s) (late s) (taken s) (begun s) (ended s) (finished s) (failures s) (postb s) (failedids s) (shuterr s) (partlog s) (nparts s).
+Definition set_cflush (v : list (list (list id))) (s : state) : state :=
+  mkState (queue s) (qstop s) (store s) (refs s) (closed s) (idle s) (exited s) (holding s) v (current s) (workers s) (works s) (timer s) (bclosed s) (rstop s) (pc s) (accepted s) (accpre s) (late s) (taken s) (begun s) (ended s) (finished s) (failures s) (postb s) (failedids s) (shuterr s) (partlog s) (nparts s).
 Definition set_current (v : list id) (s : state) : state :=
-  mkState (queue s) (qstop s) (store s) (refs s) (closed s) (idle s) (exited s) (holding s) (cflush s) v (workers s) (works s) (timer s) (bclosed s) (rstop s) (pc s) (accepted s) (accpre s) (late s) (taken s) (begun s) (ended s) (finished s) (failures s) (postb s) (failedids s) (shuterr s).
+  mkState (queue s) (qstop s) (store s) (refs s) (closed s) (idle s) (exited s) (holding s) (cflush s) v (workers s) (works s) (timer s) (bclosed s) (rstop s) (pc s) (accepted s) (accpre s) (late s) (taken s) (begun s) (ended s) (finished s) (failures s) (postb s) (failedids s) (shuterr s) (partlog s) (nparts s).
 Definition set_workers (v : nat) (s : state) : state :=
-  mkState (queue s) (qstop s) (store s) (refs s) (closed s) (idle s) (exited s) (holding s) (cflush s) (current s) v (works s) (timer s) (bclosed s) (rstop s) (pc s) (accepted s) (accpre s) (late s) (taken s) (begun s) (ended s) (finished s) (failures s) (postb s) (failedids s) (shuterr s).
+  mkState (queue s) (qstop s) (store s) (refs s) (closed s) (idle s) (exited s) (holding s) (cflush s) (current s) v (works s) (timer s) (bclosed s) (rstop s) (pc s) (accepted s) (accpre s) (late s) (taken s) (begun s) (ended s) (finished s) (failures s) (postb s) (failedids s) (shuterr s) (partlog s) (nparts s).
 Definition set_works (v : list work) (s : state) : state :=
-  mkState (queue s) (qstop s) (store s) (refs s) (closed s) (idle s) (exited s) (holding s) (cflush s) (current s) (workers s) v (timer s) (bclosed s) (rstop s) (pc s) (accepted s) (accpre s) (late s) (taken s) (begun s) (ended s) (finished s) (failures s) (postb s) (failedids s) (shuterr s).
+  mkState (queue s) (qstop s) (store s) (refs s) (closed s) (idle s) (exited s) (holding s) (cflush s) (current s) (workers s) v (timer s) (bclosed s) (rstop s) (pc s) (accepted s) (accpre s) (late s) (taken s) (begun s) (ended s) (finished s) (failures s) (postb s) (failedids s) (shuterr s) (partlog s) (nparts s).
 Definition set_timer (v : timer_st) (s : state) : state :=
-  mkState (queue s) (qstop s) (store s) (refs s) (closed s) (idle s) (exited s) (holding s) (cflush s) (current s) (workers s) (works s) v (bclosed s) (rstop s) (pc s) (accepted s) (accpre s) (late s) (taken s) (begun s) (ended s) (finished s) (failures s) (postb s) (failedids s) (shuterr s).
+  mkState (queue s) (qstop s) (store s) (refs s) (closed s) (idle s) (exited s) (holding s) (cflush s) (current s) (workers s) (works s) v (bclosed s) (rstop s) (pc s) (accepted s) (accpre s) (late s) (taken s) (begun s) (ended s) (finished s) (failures s) (postb s) (failedids s) (shuterr s) (partlog s) (nparts s).
 Definition set_bclosed (v : bool) (s : state) : state :=
-  mkState (queue s) (qstop s) (store s) (refs s) (closed s) (idle s) (exited s) (holding s) (cflush s) (current s) (workers s) (works s) (timer s) v (rstop s) (pc s) (accepted s) (accpre s) (late s) (taken s) (begun s) (ended s) (finished s) (failures s) (postb s) (failedids s) (shuterr s).
+  mkState (queue s) (qstop s) (store s) (refs s) (closed s) (idle s) (exited s) (holding s) (cflush s) (current s) (workers s) (works s) (timer s) v (rstop s) (pc s) (accepted s) (accpre s) (late s) (taken s) (begun s) (ended s) (finished s) (failures s) (postb s) (failedids s) (shuterr s) (partlog s) (nparts s).
 Definition set_rstop (v : bool) (s : state) : state :=
-  mkState (queue s) (qstop s) (store s) (refs s) (closed s) (idle s) (exited s) (holding s) (cflush s) (current s) (workers s) (works s) (timer s) (bclosed s) v (pc s) (accepted s) (accpre s) (late s) (taken s) (begun s) (ended s) (finished s) (failures s) (postb s) (failedids s) (shuterr s).
+  mkState (queue s) (qstop s) (store s) (refs s) (closed s) (idle s) (exited s) (holding s) (cflush s) (current s) (workers s) (works s) (timer s) (bclosed s) v (pc s) (accepted s) (accpre s) (late s) (taken s) (begun s) (ended s) (finished s) (failures s) (postb s) (failedids s) (shuterr s) (partlog s) (nparts s).
 Definition set_pc (v : pc_t) (s : state) : state :=
-  mkState (queue s) (qstop s) (store s) (refs s) (closed s) (idle s) (exited s) (holding s) (cflush s) (current s) (workers s) (works s) (timer s) (bclosed s) (rstop s) v (accepted s) (accpre s) (late s) (taken s) (begun s) (ended s) (finished s) (failures s) (postb s) (failedids s) (shuterr s).
+  mkState (queue s) (qstop s) (store s) (refs s) (closed s) (idle s) (exited s) (holding s) (cflush s) (current s) (workers s) (works s) (timer s) (bclosed s) (rstop s) v (accepted s) (accpre s) (late s) (taken s) (begun s) (ended s) (finished s) (failures s) (postb s) (failedids s) (shuterr s) (partlog s) (nparts s).
 Definition set_accepted (v : list id) (s : state) : state :=
-  mkState (queue s) (qstop s) (store s) (refs s) (closed s) (idle s) (exited s) (holding s) (cflush s) (current s) (workers s) (works s) (timer s) (bclosed s) (rstop s) (pc s) v (accpre s) (late s) (taken s) (begun s) (ended s) (finished s) (failures s) (postb s) (failedids s) (shuterr s).
+  mkState (queue s) (qstop s) (store s) (refs s) (closed s) (idle s) (exited s) (holding s) (cflush s) (current s) (workers s) (works s) (timer s) (bclosed s) (rstop s) (pc s) v (accpre s) (late s) (taken s) (begun s) (ended s) (finished s) (failures s) (postb s) (failedids s) (shuterr s) (partlog s) (nparts s).
 Definition set_accpre (v : list id) (s : state) : state :=
-  mkState (queue s) (qstop s) (store s) (refs s) (closed s) (idle s) (exited s) (holding s) (cflush s) (current s) (workers s) (works s) (timer s) (bclosed s) (rstop s) (pc s) (accepted s) v (late s) (taken s) (begun s) (ended s) (finished s) (failures s) (postb s) (failedids s) (shuterr s).
+  mkState (queue s) (qstop s) (store s) (refs s) (closed s) (idle s) (exited s) (holding s) (cflush s) (current s) (workers s) (works s) (timer s) (bclosed s) (rstop s) (pc s) (accepted s) v (late s) (taken s) (begun s) (ended s) (finished s) (failures s) (postb s) (failedids s) (shuterr s) (partlog s) (nparts s).
 Definition set_late (v : list id) (s : state) : state :=
-  mkState (queue s) (qstop s) (store s) (refs s) (closed s) (idle s) (exited s) (holding s) (cflush s) (current s) (workers s) (works s) (timer s) (bclosed s) (rstop s) (pc s) (accepted s) (accpre s) v (taken s) (begun s) (ended s) (finished s) (failures s) (postb s) (failedids s) (shuterr s).
+  mkState (queue s) (qstop s) (store s) (refs s) (closed s) (idle s) (exited s) (holding s) (cflush s) (current s) (workers s) (works s) (timer s) (bclosed s) (rstop s) (pc s) (accepted s) (accpre s) v (taken s) (begun s) (ended s) (finished s) (failures s) (postb s) (failedids s) (shuterr s) (partlog s) (nparts s).
 Definition set_taken (v : list id) (s : state) : state :=
-  mkState (queue s) (qstop s) (store s) (refs s) (closed s) (idle s) (exited s) (holding s) (cflush s) (current s) (workers s) (works s) (timer s) (bclosed s) (rstop s) (pc s) (accepted s) (accpre s) (late s) v (begun s) (ended s) (finished s) (failures s) (postb s) (failedids s) (shuterr s).
+  mkState (queue s) (qstop s) (store s) (refs s) (closed s) (idle s) (exited s) (holding s) (cflush s) (current s) (workers s) (works s) (timer s) (bclosed s) (rstop s) (pc s) (accepted s) (accpre s) (late s) v (begun s) (ended s) (finished s) (failures s) (postb s) (failedids s) (shuterr s) (partlog s) (nparts s).
 Definition set_begun (v : list id) (s : state) : state :=
-  mkState (queue s) (qstop s) (store s) (refs s) (closed s) (idle s) (exited s) (holding s) (cflush s) (current s) (workers s) (works s) (timer s) (bclosed s) (rstop s) (pc s) (accepted s) (accpre s) (late s) (taken s) v (ended s) (finished s) (failures s) (postb s) (failedids s) (shuterr s).
+  mkState (queue s) (qstop s) (store s) (refs s) (closed s) (idle s) (exited s) (holding s) (cflush s) (current s) (workers s) (works s) (timer s) (bclosed s) (rstop s) (pc s) (accepted s) (accpre s) (late s) (taken s) v (ended s) (finished s) (failures s) (postb s) (failedids s) (shuterr s) (partlog s) (nparts s).
 Definition set_ended (v : list id) (s : state) : state :=
-  mkState (queue s) (qstop s) (store s) (refs s) (closed s) (idle s) (exited s) (holding s) (cflush s) (current s) (workers s) (works s) (timer s) (bclosed s) (rstop s) (pc s) (accepted s) (accpre s) (late s) (taken s) (begun s) v (finished s) (failures s) (postb s) (failedids s) (shuterr s).
+  mkState (queue s) (qstop s) (store s) (refs s) (closed s) (idle s) (exited s) (holding s) (cflush s) (current s) (workers s) (works s) (timer s) (bclosed s) (rstop s) (pc s) (accepted s) (accpre s) (late s) (taken s) (begun s) v (finished s) (failures s) (postb s) (failedids s) (shuterr s) (partlog s) (nparts s).
 Definition set_finished (v : list (id * result)) (s : state) : state :=
-  mkState (queue s) (qstop s) (store s) (refs s) (closed s) (idle s) (exited s) (holding s) (cflush s) (current s) (workers s) (works s) (timer s) (bclosed s) (rstop s) (pc s) (accepted s) (accpre s) (late s) (taken s) (begun s) (ended s) v (failures s) (postb s) (failedids s) (shuterr s).
+  mkState (queue s) (qstop s) (store s) (refs s) (closed s) (idle s) (exited s) (holding s) (cflush s) (current s) (workers s) (works s) (timer s) (bclosed s) (rstop s) (pc s) (accepted s) (accpre s) (late s) (taken s) (begun s) (ended s) v (failures s) (postb s) (failedids s) (shuterr s) (partlog s) (nparts s).
 Definition set_failures (v : nat) (s : state) : state :=
-  mkState (queue s) (qstop s) (store s) (refs s) (closed s) (idle s) (exited s) (holding s) (cflush s) (current s) (workers s) (works s) (timer s) (bclosed s) (rstop s) (pc s) (accepted s) (accpre s) (late s) (taken s) (begun s) (ended s) (finished s) v (postb s) (failedids s) (shuterr s).
+  mkState (queue s) (qstop s) (store s) (refs s) (closed s) (idle s) (exited s) (holding s) (cflush s) (current s) (workers s) (works s) (timer s) (bclosed s) (rstop s) (pc s) (accepted s) (accpre s) (late s) (taken s) (begun s) (ended s) (finished s) v (postb s) (failedids s) (shuterr s) (partlog s) (nparts s).
 Definition set_postb (v : nat) (s : state) : state :=
-  mkState (queue s) (qstop s) (store s) (refs s) (closed s) (idle s) (exited s) (holding s) (cflush s) (current s) (workers s) (works s) (timer s) (bclosed s) (rstop s) (pc s) (accepted s) (accpre s) (late s) (taken s) (begun s) (ended s) (finished s) (failures s) v (failedids s) (shuterr s).
+  mkState (queue s) (qstop s) (store s) (refs s) (closed s) (idle s) (exited s) (holding s) (cflush s) (current s) (workers s) (works s) (timer s) (bclosed s) (rstop s) (pc s) (accepted s) (accpre s) (late s) (taken s) (begun s) (ended s) (finished s) (failures s) v (failedids s) (shuterr s) (partlog s) (nparts s).
 Definition set_failedids (v : list id) (s : state) : state :=
-  mkState (queue s) (qstop s) (store s) (refs s) (closed s) (idle s) (exited s) (holding s) (cflush s) (current s) (workers s) (works s) (timer s) (bclosed s) (rstop s) (pc s) (accepted s) (accpre s) (late s) (taken s) (begun s) (ended s) (finished s) (failures s) (postb s) v (shuterr s).
+  mkState (queue s) (qstop s) (store s) (refs s) (closed s) (idle s) (exited s) (holding s) (cflush s) (current s) (workers s) (works s) (timer s) (bclosed s) (rstop s) (pc s) (accepted s) (accpre s) (late s) (taken s) (begun s) (ended s) (finished s) (failures s) (postb s) v (shuterr s) (partlog s) (nparts s).
 Definition set_shuterr (v : bool) (s : state) : state :=
-  mkState (queue s) (qstop s) (store s) (refs s) (closed s) (idle s) (exited s) (holding s) (cflush s) (current s) (workers s) (works s) (timer s) (bclosed s) (rstop s) (pc s) (accepted s) (accpre s) (late s) (taken s) (begun s) (ended s) (finished s) (failures s) (postb s) (failedids s) v.
+  mkState (queue s) (qstop s) (store s) (refs s) (closed s) (idle s) (exited s) (holding s) (cflush s) (current s) (workers s) (works s) (timer s) (bclosed s) (rstop s) (pc s) (accepted s) (accpre s) (late s) (taken s) (begun s) (ended s) (finished s) (failures s) (postb s) (failedids s) v (partlog s) (nparts s).
+Definition set_partlog (v : list (id * result)) (s : state) : state :=
+  mkState (queue s) (qstop s) (store s) (refs s) (closed s) (idle s) (exited s) (holding s) (cflush s) (current s) (workers s) (works s) (timer s) (bclosed s) (rstop s) (pc s) (accepted s) (accpre s) (late s) (taken s) (begun s) (ended s) (finished s) (failures s) (postb s) (failedids s) (shuterr s) v (nparts s).
+Definition set_nparts (v : list id) (s : state) : state :=
+  mkState (queue s) (qstop s) (store s) (refs s) (closed s) (idle s) (exited s) (holding s) (cflush s) (current s) (workers s) (works s) (timer s) (bclosed s) (rstop s) (pc s) (accepted s) (accpre s) (late s) (taken s) (begun s) (ended s) (finished s) (failures s) (postb s) (failedids s) (shuterr s) (partlog s) v.
+
+(* ---- counting ------------------------------------------------------------------------------ *)
+Fixpoint sumf {A} (g : A -> nat) (l : list A) : nat :=
+  match l with [] => 0 | x :: r => g x + sumf g r end.
+Definition one (i j : id) : nat := if Nat.eqb j i then 1 else 0.
+Definition cnt (i : id) (l : list id) : nat := sumf (one i) l.
 
 (* ---- list helpers ------------------------------------------------------------------------- *)
 Fixpoint remove_nth {A} (k : nat) (l : list A) : list A :=
@@ -144,7 +163,10 @@ Fixpoint upd_nth {A} (k : nat) (f : A -> A) (l : list A) : list A :=
 
 Definition mem (i : id) (l : list id) : bool := existsb (Nat.eqb i) l.
 
-Definition set_st (st : send_st) (w : work) : work := mkWork (w_ids w) st (w_cons w).
+Fixpoint dedup (l : list id) : list id :=
+  match l with [] => [] | x :: r => if mem x r then dedup r else x :: dedup r end.
+
+Definition set_st (st : send_st) (w : work) : work := mkWork (w_ids w) st (w_own w).
 
 Definition is_not (p : pc_t) : bool := match p with PNot => true | _ => false end.
 Definition after_inner (p : pc_t) : bool := match p with PInner | PReturned => true | _ => false end.
@@ -152,6 +174,8 @@ Definition is_ok (o : outcome) : bool := match o with OOk => true | _ => false e
 Definition is_shutdown (r : result) : bool := match r with RShutdown => true | _ => false end.
 Definition timer_dead (t : timer_st) : bool := match t with TNone | TExit => true | _ => false end.
 Definition nonempty {A} (l : list A) : bool := match l with [] => false | _ => true end.
+Definition is_fly (w : work) : bool := match w_own w with OFly => true | _ => false end.
+Definition is_caller (w : work) : bool := match w_own w with OCaller => true | _ => false end.
 
 (* retry_sender.go Send, after the export function returned *)
 Definition end_state (c : cfg) (o : outcome) : send_st :=
@@ -161,19 +185,57 @@ Definition end_state (c : cfg) (o : outcome) : send_st :=
   | OTransient => if c_retry c then SBackoff else SDone RFail   (* no retry sender: error returned as is *)
   end.
 
+(* ---- a request that the batcher splits (max_size) into several export calls -------------------
+   default_batcher.go refCountDone: every part reports its result; the errors are accumulated
+   (multierr.Append) and the queue's Done is called once, after the last part, with the accumulated
+   error.  persistent_queue.go onDone keeps the stored request iff experr.IsShutdownErr(err), and
+   errors.As looks into every accumulated error.  So the request's verdict is: *)
+Fixpoint combine (rs : list result) : result :=
+  match rs with
+  | [] => RSuccess
+  | r :: t =>
+      match r, combine t with
+      | RShutdown, _ | _, RShutdown => RShutdown     (* some part was only interrupted by the shutdown *)
+      | RFail, _ | _, RFail => RFail
+      | RSuccess, RSuccess => RSuccess
+      end
+  end.
+
+(* is the request still in the storage after all its parts reported? *)
+Definition kept_after (rs : list result) : bool := is_shutdown (combine rs).
+
+Definition results_of (i : id) (log : list (id * result)) : list result :=
+  map snd (filter (fun p => Nat.eqb (fst p) i) log).
+
+Definition tmb (s : state) : list id := match timer s with TFlush b => b | _ => [] end.
+Definition pcb (s : state) : list id := match pc s with PFlushWait b => b | _ => [] end.
+
+(* number of parts of request i that are still on their way (in the current batch, waiting to be flushed,
+   or being exported).  The refcount of refCountDone is not a separate field of the model: it is this
+   number (the queue's Done of a request runs when its last outstanding part reports) *)
+Definition parts_out (i : id) (s : state) : nat :=
+  cnt i (current s) + sumf (sumf (cnt i)) (cflush s) + cnt i (tmb s) + cnt i (pcb s)
+  + sumf (fun w => cnt i (w_ids w)) (works s).
+
 Inductive label :=
 | LOffer (i : id)            (* memoryQueue.add / persistentQueue.putInternal succeeds *)
 | LOfferFail (i : id)        (* persistent queue, storage client already closed: the write fails *)
+| LSend (i : id)             (* exporter without queue: Send enters the sender chain on the caller's goroutine *)
 | LTake                      (* a consumer's Read returns the head of the queue *)
 | LConsExit                  (* a consumer's Read returns !ok; the goroutine exits (stopWG.Done) *)
-| LAbsorb (k : nat) (fl : bool)  (* defaultBatcher.Consume critical section: merge into currentBatch; fl = flush it *)
-| LSpawnC (k : nat)          (* flush(): the consumer obtains a worker and starts the flush goroutine *)
+| LAbsorb (k n : nat) (keep : bool)
+                             (* defaultBatcher.Consume critical section: MergeSplit(currentBatch, req) yields n >= 1
+                                chunks, the first one = currentBatch + the beginning of req, the others parts of req;
+                                all are flushed (one after the other, by this consumer) except that the last one is
+                                kept as the new currentBatch when keep (smaller than min_size) *)
+| LSpawnC (k : nat)          (* flush(): the consumer obtains a worker and starts the flush goroutine for its next chunk *)
 | LBegin (k : nat)           (* the export function is called for work k *)
 | LEnd (k : nat) (o : outcome) (* ... and returns *)
 | LRetryTimer (k : nat)      (* back-off select: timer branch *)
 | LRetryStop (k : nat)       (* back-off select: stopCh branch -> shutdown error *)
 | LRetryGiveUp (k : nat)     (* max_elapsed_time / deadline: "no more retries left" *)
-| LDone (k : nat)            (* Done callbacks of the work (queue onDone), worker returned / consumer loops *)
+| LDone (k : nat)            (* the work's result is reported: refCountDone / queue onDone for every request whose last
+                                outstanding part this was; worker returned / consumer loops / Send returns *)
 | LTimerFire                 (* timer goroutine: <-timer.C; takes currentBatch under the lock *)
 | LTimerSpawn                (* timer goroutine: flush() obtains a worker *)
 | LTimerExit                 (* timer goroutine: <-shutdownCh *)
@@ -183,6 +245,7 @@ Inductive label :=
                                 err: the storage failed (queue-size snapshot not written / Close failed): the call returns
                                 an error, which changes NOTHING else — consumers are still joined, the batcher is still
                                 shut down; the error is only joined into Shutdown's result (ghost [shuterr]) *)
+| LNoQueue                   (* exporter without queue: "if be.QueueSender != nil" is false, nothing to stop or join *)
 | LJoinConsumers             (* asyncQueue.Shutdown: stopWG.Wait returns *)
 | LFinalFlush                (* defaultBatcher.Shutdown: close(shutdownCh); take currentBatch under the lock *)
 | LFinalSpawn                (* ... flush() obtains a worker *)
@@ -192,32 +255,39 @@ Inductive label :=
 
 Definition init (c : cfg) : state :=
   mkState [] false [] 1 false
-          (c_ncons c) 0 [] []
-          [] (c_nwork c) [] (if c_batch c && c_timer c then TRun else TNone) false
+          (ncons_eff c) 0 [] []
+          [] (c_nwork c) [] (if c_queue c && c_batch c && c_timer c then TRun else TNone) false
           false PNot
-          [] [] [] [] [] [] [] 0 0 [] false.
+          [] [] [] [] [] [] [] 0 0 [] false [] [].
 
-Definition new_work (b : list id) (bycons : bool) (s : state) : state :=
-  set_works (works s ++ [mkWork b SReady bycons]) s.
+Definition new_work (b : list id) (o : owner) (s : state) : state :=
+  set_works (works s ++ [mkWork b SReady o]) s.
 
 Definition step (c : cfg) (s : state) (l : label) : option state :=
   match l with
   | LOffer i =>
-      if mem i (accepted s) || (c_persist c && closed s) then None else
+      if negb (c_queue c) || mem i (accepted s) || (c_persist c && closed s) then None else
       Some (set_queue (queue s ++ [i])
            (set_accepted (i :: accepted s)
            (set_accpre (if is_not (pc s) then i :: accpre s else accpre s)
            (set_late (if qstop s then i :: late s else late s)
            (set_store (if c_persist c then i :: store s else store s) s)))))
   | LOfferFail i =>
-      if c_persist c && closed s then Some s else None
+      if c_queue c && c_persist c && closed s then Some s else None
+  | LSend i =>
+      if c_queue c || mem i (accepted s) then None else
+      Some (new_work [i] OCaller
+           (set_accepted (i :: accepted s)
+           (set_accpre (if is_not (pc s) then i :: accpre s else accpre s)
+           (set_taken (i :: taken s) (set_nparts (i :: nparts s) s)))))
   | LTake =>
       match idle s, queue s with
       | S n, i :: q =>
           if c_persist c && qstop s then None else
           let s1 := set_queue q (set_idle n (set_taken (i :: taken s)
                     (set_refs (if c_persist c then S (refs s) else refs s) s))) in
-          Some (if c_batch c then set_holding (holding s1 ++ [i]) s1 else new_work [i] true s1)
+          Some (if c_batch c then set_holding (holding s1 ++ [i]) s1
+                else new_work [i] OCons (set_nparts (i :: nparts s1) s1))
       | _, _ => None
       end
   | LConsExit =>
@@ -226,19 +296,28 @@ Definition step (c : cfg) (s : state) (l : label) : option state :=
                then Some (set_idle n (set_exited (S (exited s)) s)) else None
       | 0 => None
       end
-  | LAbsorb k fl =>
-      match nth_error (holding s) k with
-      | Some i =>
-          let merged := current s ++ [i] in
-          let s1 := set_holding (remove_nth k (holding s)) s in
-          Some (if fl then set_current [] (set_cflush (cflush s1 ++ [merged]) s1)
-                else set_current merged (set_idle (S (idle s1)) s1))
-      | None => None
+  | LAbsorb k n keep =>
+      match nth_error (holding s) k, n with
+      | Some i, S m =>
+          if Nat.ltb (c_maxparts c) n then None else
+          let c1 := current s ++ [i] in
+          let s1 := set_nparts (repeat i (S m) ++ nparts s) (set_holding (remove_nth k (holding s)) s) in
+          Some (if keep then
+                  match m with
+                  | 0 => set_current c1 (set_idle (S (idle s1)) s1)
+                  | S m' => set_current [i] (set_cflush (cflush s1 ++ [c1 :: repeat [i] m']) s1)
+                  end
+                else set_current [] (set_cflush (cflush s1 ++ [c1 :: repeat [i] m]) s1))
+      | _, _ => None
       end
   | LSpawnC k =>
       match nth_error (cflush s) k, workers s with
-      | Some b, S n =>
-          Some (new_work b false (set_workers n (set_cflush (remove_nth k (cflush s)) (set_idle (S (idle s)) s))))
+      | Some (b :: rest), S n =>
+          let s1 := new_work b OFly (set_workers n s) in
+          Some (match rest with
+                | [] => set_cflush (remove_nth k (cflush s)) (set_idle (S (idle s)) s1)
+                | _ :: _ => set_cflush (upd_nth k (fun _ => rest) (cflush s)) s1
+                end)
       | _, _ => None
       end
   | LBegin k =>
@@ -247,7 +326,7 @@ Definition step (c : cfg) (s : state) (l : label) : option state :=
           match w_st w with
           | SReady => Some (set_works (upd_nth k (set_st SInCall) (works s))
                            (set_begun (w_ids w ++ begun s)
-                           (set_postb (if after_inner (pc s) then S (postb s) else postb s) s)))
+                           (set_postb (if after_inner (pc s) && negb (is_caller w) then S (postb s) else postb s) s)))
           | _ => None
           end
       | None => None
@@ -295,14 +374,21 @@ Definition step (c : cfg) (s : state) (l : label) : option state :=
           match w_st w with
           | SDone r =>
               let s1 := set_works (remove_nth k (works s))
-                        (set_finished (map (fun i => (i, r)) (w_ids w) ++ finished s) s) in
-              let s2 := if w_cons w then set_idle (S (idle s1)) s1 else set_workers (S (workers s1)) s1 in
-              Some (if c_persist c then
-                      let refs' := refs s2 - length (w_ids w) in
-                      set_refs refs' (set_closed (closed s2 || Nat.eqb refs' 0)
-                        (set_store (if is_shutdown r then store s2
-                                    else filter (fun i => negb (mem i (w_ids w))) (store s2)) s2))
-                    else s2)
+                        (set_partlog (map (fun i => (i, r)) (w_ids w) ++ partlog s) s) in
+              (* the requests whose last outstanding part this was: their Done runs now *)
+              let finals := filter (fun i => Nat.eqb (parts_out i s1) 0) (dedup (w_ids w)) in
+              let verdict := fun i => combine (results_of i (partlog s1)) in
+              let s2 := set_finished (map (fun i => (i, verdict i)) finals ++ finished s1) s1 in
+              let s3 := match w_own w with
+                        | OCons => set_idle (S (idle s2)) s2
+                        | OFly => set_workers (S (workers s2)) s2
+                        | OCaller => s2
+                        end in
+              Some (if c_persist c && negb (is_caller w) then
+                      let refs' := refs s3 - length finals in
+                      set_refs refs' (set_closed (closed s3 || Nat.eqb refs' 0)
+                        (set_store (filter (fun i => negb (mem i finals && negb (is_shutdown (verdict i)))) (store s3)) s3))
+                    else s3)
           | _ => None
           end
       | None => None
@@ -314,7 +400,7 @@ Definition step (c : cfg) (s : state) (l : label) : option state :=
       end
   | LTimerSpawn =>
       match timer s, workers s with
-      | TFlush b, S n => Some (new_work b false (set_workers n (set_timer TRun s)))
+      | TFlush b, S n => Some (new_work b OFly (set_workers n (set_timer TRun s)))
       | _, _ => None
       end
   | LTimerExit =>
@@ -331,15 +417,21 @@ Definition step (c : cfg) (s : state) (l : label) : option state :=
   | LQueueStop err =>
       match pc s with
       | PStopClosed =>
+          if negb (c_queue c) then None else
           let s1 := set_pc PQStopped (set_qstop true (set_shuterr err s)) in
           Some (if c_persist c then
                   let refs' := refs s1 - 1 in set_refs refs' (set_closed (closed s1 || Nat.eqb refs' 0) s1)
                 else s1)
       | _ => None
       end
+  | LNoQueue =>
+      match pc s with
+      | PStopClosed => if c_queue c then None else Some (set_pc PFlushJoined s)
+      | _ => None
+      end
   | LJoinConsumers =>
       match pc s with
-      | PQStopped => if Nat.eqb (exited s) (c_ncons c) then Some (set_pc PJoined s) else None
+      | PQStopped => if Nat.eqb (exited s) (ncons_eff c) then Some (set_pc PJoined s) else None
       | _ => None
       end
   | LFinalFlush =>
@@ -352,37 +444,18 @@ Definition step (c : cfg) (s : state) (l : label) : option state :=
       end
   | LFinalSpawn =>
       match pc s, workers s with
-      | PFlushWait b, S n => Some (new_work b false (set_workers n (set_pc PFlushed s)))
+      | PFlushWait b, S n => Some (new_work b OFly (set_workers n (set_pc PFlushed s)))
       | _, _ => None
       end
   | LJoinFlushes =>
       match pc s with
-      | PFlushed => if forallb w_cons (works s) && timer_dead (timer s) && negb (nonempty (cflush s))
+      | PFlushed => if forallb (fun w => negb (is_fly w)) (works s) && timer_dead (timer s) && negb (nonempty (cflush s))
                     then Some (set_pc PFlushJoined s) else None
       | _ => None
       end
   | LInnerShutdown => match pc s with PFlushJoined => Some (set_pc PInner s) | _ => None end
   | LReturn => match pc s with PInner => Some (set_pc PReturned s) | _ => None end
   end.
-
-(* ---- a stored request that the batcher splits (max_size) into several export calls -------------
-   default_batcher.go refCountDone: every part reports its result; the errors are accumulated
-   (multierr.Append) and the queue's Done is called once, after the last part, with the accumulated
-   error.  persistent_queue.go onDone keeps the stored request iff experr.IsShutdownErr(err), and
-   errors.As looks into every accumulated error.  So the request's verdict is: *)
-Fixpoint combine (rs : list result) : result :=
-  match rs with
-  | [] => RSuccess
-  | r :: t =>
-      match r, combine t with
-      | RShutdown, _ | _, RShutdown => RShutdown     (* some part was only interrupted by the shutdown *)
-      | RFail, _ | _, RFail => RFail
-      | RSuccess, RSuccess => RSuccess
-      end
-  end.
-
-(* is the request still in the storage after all its parts reported? *)
-Definition kept_after (rs : list result) : bool := is_shutdown (combine rs).
 
 Fixpoint run (c : cfg) (s : state) (ls : list label) : option state :=
   match ls with
@@ -392,7 +465,8 @@ Fixpoint run (c : cfg) (s : state) (ls : list label) : option state :=
 
 Definition reachable (c : cfg) (s : state) : Prop := exists ls, run c (init c) ls = Some s.
 
-(* helper goroutines of the exporter that are alive in s *)
+(* goroutines that are alive in s: the exporter's helpers (consumers, flush goroutines, timer) and, for an
+   exporter without queue, the callers that are still inside Send *)
 Definition live (s : state) : nat :=
   idle s + length (holding s) + length (cflush s) + length (works s)
   + (if timer_dead (timer s) then 0 else 1).
@@ -400,12 +474,13 @@ Definition live (s : state) : nat :=
 (* ======== deterministic scheduler used by the correspondence run ==============================
    The Go harness gates the export function and performs one ACTION at a time, waiting for quiescence
    (every goroutine blocked) after each.  [exec] replays that: apply the action's label, then run the
-   enabled internal labels to quiescence.  [exec_run] (Proofs.v) shows every execution of the scheduler
+   enabled internal labels to quiescence.  [exec_run] (Proofs2.v) shows every execution of the scheduler
    is a run of the LTS above. *)
 Record hcfg := mkH {
   h_cfg : cfg;
   h_mode : nat;      (* retry: 0 off | 1 long back-off (never elapses) | 2 short back-off | 3 gives up at once *)
   h_min : nat;       (* batch min_size in items *)
+  h_max : nat;       (* batch max_size in items (0 = none) *)
   h_wait : bool;     (* wait_for_result: Offer returns (with the export's result) only when Done is called *)
   h_fsize : bool;    (* storage fault: the queue-size snapshot written by persistentQueue.Shutdown fails
                         (only written when the queue is not sized by requests) *)
@@ -418,7 +493,8 @@ Definition qstop_err (hc : hcfg) (s : state) : bool :=
 
 Inductive action := AOffer (i : id) (sz : nat) | ARelease (i : id) (o : outcome) | AShutdown
                   | ATimerFire    (* the harness makes the batcher's flush timer fire now *)
-                  | AShutdownRace (m : nat) (e : bool).
+                  | AShutdownRace (m : nat) (e : bool)
+                  | ASend (i : id).  (* exporter without queue: a Send on its own goroutine *)
 (* AShutdownRace: Shutdown is called while a work sits in a long back-off and the persistent queue still holds
    requests.  close(stopCh) wakes the back-off; the freed consumer then races with persistentQueue.Shutdown
    for the next request — both orders are legal.  The harness reports what it saw: m = number of ids whose
@@ -429,17 +505,17 @@ Inductive action := AOffer (i : id) (sz : nat) | ARelease (i : id) (o : outcome)
    and no error was seen, the queue's stop is scheduled before the woken works finish. *)
 
 Definition event := (nat * list id)%type.
-(* kinds: 0 export begins (ids) | 1 export ends (ids) | 2 Shutdown returned | 3 wrapped exporter shut down
-          4 offer accepted | 5 offer refused | 6 storage client closed *)
+(* kinds: 0 export begins (ids) | 1 export ends (ids) | 2 Shutdown returned (ids = [1] when it returned an error)
+          3 wrapped exporter shut down | 4 offer accepted | 5 offer refused | 6 storage client closed
+          8 Send of an exporter without queue returned: [id; 0 ok | 1 error | 2 shutdown error] *)
 
+(* sizes: items of every offered request; the pseudo-entry with key 0 is the size of the current batch
+   (needed because the current batch may hold only the last chunk of a split request) *)
 Fixpoint size_of (sizes : list (id * nat)) (i : id) : nat :=
   match sizes with
   | [] => 0
   | (j, n) :: r => if Nat.eqb i j then n else size_of r i
   end.
-
-Definition bsize (sizes : list (id * nat)) (b : list id) : nat :=
-  fold_right (fun i a => size_of sizes i + a) 0 b.
 
 Fixpoint insert_nat (x : nat) (l : list nat) : list nat :=
   match l with
@@ -458,6 +534,21 @@ Fixpoint insert_ev (x : event) (l : list event) : list event :=
   | y :: r => if ev_leb x y then x :: l else y :: insert_ev x r
   end.
 Definition sort_ev (l : list event) : list event := fold_right insert_ev [] l.
+
+(* defaultBatcher.Consume + the harness's MergeSplit (chunks of max_size items, in order): the current batch
+   has cs items (< min_size <= max_size), the request sz: total = cs + sz items are cut into n chunks of
+   max_size, the last one has rem items and is kept iff rem < min_size.  Every chunk holds a part of the request. *)
+Definition absorb_params (hc : hcfg) (sizes : list (id * nat)) (s : state) (i : id) : nat * bool * nat :=
+  let cs := if nonempty (current s) then size_of sizes 0 else 0 in
+  let total := cs + size_of sizes i in
+  match h_max hc with
+  | 0 => let keep := Nat.ltb total (h_min hc) in (1, keep, if keep then total else 0)
+  | S _ as mx =>
+      let n := (total + mx - 1) / mx in
+      let rem := total - (n - 1) * mx in
+      let keep := Nat.ltb rem (h_min hc) in
+      (n, keep, if keep then rem else 0)
+  end.
 
 (* the label the scheduler runs for the first work that can move by itself *)
 Fixpoint work_label (hc : hcfg) (stopped : bool) (k : nat) (ws : list work) : option label :=
@@ -480,17 +571,23 @@ Fixpoint work_label (hc : hcfg) (stopped : bool) (k : nat) (ws : list work) : op
 Definition candidates (hc : hcfg) (sizes : list (id * nat)) (s : state) : list label :=
   (match work_label hc (rstop s) 0 (works s) with Some l => [l] | None => [] end) ++
   (match holding s with
-   | i :: _ => [LAbsorb 0 (Nat.leb (h_min hc) (bsize sizes (current s ++ [i])))]
+   | i :: _ => let '(n, keep, _) := absorb_params hc sizes s i in [LAbsorb 0 n keep]
    | [] => []
    end) ++
-  [LSpawnC 0; LTimerSpawn; LTake; LConsExit; LTimerExit; LCloseStop; LQueueStop (qstop_err hc s); LJoinConsumers;
-   LFinalFlush; LFinalSpawn; LJoinFlushes; LInnerShutdown; LReturn].
+  [LSpawnC 0; LTimerSpawn; LTake; LConsExit; LTimerExit; LCloseStop; LQueueStop (qstop_err hc s); LNoQueue;
+   LJoinConsumers; LFinalFlush; LFinalSpawn; LJoinFlushes; LInnerShutdown; LReturn].
 
 Fixpoint first_enabled (c : cfg) (s : state) (ls : list label) : option (label * state) :=
   match ls with
   | [] => None
   | l :: r => match step c s l with Some s' => Some (l, s') | None => first_enabled c s r end
   end.
+
+Definition result_code (r : result) : nat := match r with RSuccess => 0 | RFail => 1 | RShutdown => 2 end.
+
+(* the requests whose Done ran in the step s -> s' *)
+Definition new_finished (s s' : state) : list (id * result) :=
+  firstn (length (finished s') - length (finished s)) (finished s').
 
 Definition events_of (hc : hcfg) (l : label) (s s' : state) : list event :=
   (match l with
@@ -501,30 +598,35 @@ Definition events_of (hc : hcfg) (l : label) (s s' : state) : list event :=
    | LOffer i => if h_wait hc then [] else [(4, [i])]
    | LOfferFail i => [(5, [i])]
    | LDone k =>
-       if h_wait hc then
-         match nth_error (works s) k with
-         | Some w => match w_st w with
-                     | SDone RSuccess => map (fun i => (4, [i])) (w_ids w)
-                     | SDone _ => map (fun i => (5, [i])) (w_ids w)
-                     | _ => []
-                     end
-         | None => []
-         end
-       else []
+       match nth_error (works s) k with
+       | Some w =>
+           if is_caller w then map (fun p => (8, [fst p; result_code (snd p)])) (new_finished s s')
+           else if h_wait hc then
+             map (fun p => (match snd p with RSuccess => 4 | _ => 5 end, [fst p])) (new_finished s s')
+           else []
+       | None => []
+       end
    | _ => []
    end) ++ (if negb (closed s) && closed s' then [(6, [])] else []).
 
-(* run internal labels to quiescence; returns the labels taken, the events and the final state *)
+(* the scheduler's bookkeeping of the current batch's size *)
+Definition sizes_after (hc : hcfg) (sizes : list (id * nat)) (s : state) (l : label) : list (id * nat) :=
+  match l, holding s with
+  | LAbsorb _ _ _, i :: _ => let '(_, _, cs) := absorb_params hc sizes s i in (0, cs) :: sizes
+  | _, _ => sizes
+  end.
+
+(* run internal labels to quiescence; returns the labels taken, the events, the final state and sizes *)
 Fixpoint settle_f (allow : label -> bool) (fuel : nat) (hc : hcfg) (sizes : list (id * nat)) (s : state)
-  : list label * list event * state :=
+  : list label * list event * state * list (id * nat) :=
   match fuel with
-  | 0 => ([], [], s)
+  | 0 => ([], [], s, sizes)
   | S f =>
       match first_enabled (h_cfg hc) s (filter allow (candidates hc sizes s)) with
       | Some (l, s') =>
-          let '(ls, evs, s'') := settle_f allow f hc sizes s' in
-          (l :: ls, events_of hc l s s' ++ evs, s'')
-      | None => ([], [], s)
+          let '(ls, evs, s'', sizes') := settle_f allow f hc (sizes_after hc sizes s l) s' in
+          (l :: ls, events_of hc l s s' ++ evs, s'', sizes')
+      | None => ([], [], s, sizes)
       end
   end.
 
@@ -536,15 +638,15 @@ Definition settle_fuel : nat := 400.
 
 (* everything except Read and the queue's stop runs to quiescence; then one Read wins; k times *)
 Fixpoint race_takes (k : nat) (hc : hcfg) (sizes : list (id * nat)) (s : state)
-  : option (list label * list event * state) :=
-  let '(ls, evs, s1) := settle_f not_take_stop settle_fuel hc sizes s in
+  : option (list label * list event * state * list (id * nat)) :=
+  let '(ls, evs, s1, sz1) := settle_f not_take_stop settle_fuel hc sizes s in
   match k with
-  | 0 => Some (ls, evs, s1)
+  | 0 => Some (ls, evs, s1, sz1)
   | S k' =>
       match step (h_cfg hc) s1 LTake with
       | Some s2 =>
-          match race_takes k' hc sizes s2 with
-          | Some (ls', evs', s3) => Some (ls ++ LTake :: ls', evs ++ evs', s3)
+          match race_takes k' hc sz1 s2 with
+          | Some (ls', evs', s3, sz3) => Some (ls ++ LTake :: ls', evs ++ evs', s3, sz3)
           | None => None
           end
       | None => None
@@ -552,24 +654,24 @@ Fixpoint race_takes (k : nat) (hc : hcfg) (sizes : list (id * nat)) (s : state)
   end.
 
 Definition unbegun_taken (s : state) : nat :=
-  length (holding s) + length (current s) + fold_right (fun b a => length b + a) 0 (cflush s)
-  + match timer s with TFlush b => length b | _ => 0 end.
+  length (filter (fun i => negb (mem i (begun s)))
+            (dedup (holding s ++ current s ++ concat (concat (cflush s)) ++ tmb s))).
 
 Definition exec_race (hc : hcfg) (sizes : list (id * nat)) (s : state) (m : nat) (e : bool)
-  : option (list label * list event * state) :=
+  : option (list label * list event * state * list (id * nat)) :=
   let c := h_cfg hc in
   let k := m - unbegun_taken s in
   match step c s LShutCall with
   | Some s1 =>
       match step c s1 LCloseStop with
       | Some s2 =>
-          match (if Nat.eqb k 0 && negb e then Some ([], [], s2) else race_takes k hc sizes s2) with
-          | Some (ls3, evs3, s3) =>
+          match (if Nat.eqb k 0 && negb e then Some ([], [], s2, sizes) else race_takes k hc sizes s2) with
+          | Some (ls3, evs3, s3, sz3) =>
               match step c s3 (LQueueStop (qstop_err hc s3)) with
               | Some s4 =>
-                  let '(ls5, evs5, s5) := settle settle_fuel hc sizes s4 in
+                  let '(ls5, evs5, s5, sz5) := settle settle_fuel hc sz3 s4 in
                   Some (LShutCall :: LCloseStop :: ls3 ++ LQueueStop (qstop_err hc s3) :: ls5,
-                        evs3 ++ events_of hc (LQueueStop (qstop_err hc s3)) s3 s4 ++ evs5, s5)
+                        evs3 ++ events_of hc (LQueueStop (qstop_err hc s3)) s3 s4 ++ evs5, s5, sz5)
               | None => None
               end
           | None => None
@@ -597,6 +699,7 @@ Definition action_label (hc : hcfg) (s : state) (a : action) : option label :=
   | AShutdown => Some LShutCall
   | ATimerFire => Some LTimerFire
   | AShutdownRace _ _ => None
+  | ASend i => Some (LSend i)
   end.
 
 Definition exec_action (hc : hcfg) (sizes : list (id * nat)) (s : state) (a : action)
@@ -605,7 +708,7 @@ Definition exec_action (hc : hcfg) (sizes : list (id * nat)) (s : state) (a : ac
   match a with
   | AShutdownRace m e =>
       match exec_race hc sizes s m e with
-      | Some (ls, evs, s2) => Some (ls, sort_ev evs, s2, sizes)
+      | Some (ls, evs, s2, sz2) => Some (ls, sort_ev evs, s2, sz2)
       | None => None
       end
   | _ =>
@@ -613,8 +716,8 @@ Definition exec_action (hc : hcfg) (sizes : list (id * nat)) (s : state) (a : ac
   | Some l =>
       match step (h_cfg hc) s l with
       | Some s1 =>
-          let '(ls, evs, s2) := settle settle_fuel hc sizes' s1 in
-          Some (l :: ls, sort_ev (events_of hc l s s1 ++ evs), s2, sizes')
+          let '(ls, evs, s2, sz2) := settle settle_fuel hc sizes' s1 in
+          Some (l :: ls, sort_ev (events_of hc l s s1 ++ evs), s2, sz2)
       | None => None
       end
   | None => None
